@@ -594,9 +594,15 @@ func (fc *FnCtx) instrWrites(in ssa.Instruction, promoted map[*ssa.Alloc]bool, o
 		if a, ok := x.Addr.(*ssa.Alloc); ok && promoted[a] {
 			return false
 		}
+		if fc.frameMode && stackRooted(x.Addr) {
+			return false // writes to non-escaping locals are invisible to callers
+		}
 		fc.storeTargets(x.Addr, promoted, out)
 	case *ssa.Alloc:
 		if promoted[x] {
+			return false
+		}
+		if fc.frameMode && !x.Heap {
 			return false
 		}
 		et := elemTypeOfPtr(x.Type())
@@ -713,11 +719,36 @@ func (fc *FnCtx) expandModifies(spec *FuncSpec) ([]string, bool) {
 	return out, false
 }
 
-// modset computes the set of components a function body may write (transitively).
+// stackRooted reports whether an address is derived (by field/index selection) from a
+// non-escaping local variable.
+func stackRooted(v ssa.Value) bool {
+	for i := 0; i < 16; i++ {
+		switch x := v.(type) {
+		case *ssa.Alloc:
+			return !x.Heap
+		case *ssa.FieldAddr:
+			v = x.X
+		case *ssa.IndexAddr:
+			if _, isPtr := x.X.Type().Underlying().(*types.Pointer); !isPtr {
+				return false // element of a slice: the backing array may be shared
+			}
+			v = x.X
+		default:
+			return false
+		}
+	}
+	return false
+}
+
+// modset computes the set of components a function body may write (transitively), as seen
+// by callers: writes to the function's own non-escaping locals are left out.
 func (fc *FnCtx) modset(fn *ssa.Function, visiting map[*ssa.Function]bool) ([]string, bool) {
 	if r, ok := fc.modCache[fn]; ok {
 		return r.comps, r.all
 	}
+	saveMode := fc.frameMode
+	fc.frameMode = true
+	defer func() { fc.frameMode = saveMode }()
 	visiting[fn] = true
 	defer delete(visiting, fn)
 	out := map[string]bool{}
@@ -770,6 +801,9 @@ func (fr *Frame) calleeWrites(spec *FuncSpec, fn *ssa.Function) ([]string, bool)
 // loopWrites computes what a loop may modify: promoted locals, heap components, or everything.
 func (fr *Frame) loopWrites(li *loopInfo) (locals []*ssa.Alloc, comps []string, all bool) {
 	fc := fr.fc
+	saveMode := fc.frameMode
+	fc.frameMode = false
+	defer func() { fc.frameMode = saveMode }()
 	out := map[string]bool{}
 	seen := map[*ssa.Alloc]bool{}
 	for _, b := range fr.fn.Blocks {
